@@ -1052,12 +1052,58 @@ def codec_cases(rng, n):
     return cases
 
 
+def illformed_sequences():
+    """catalogue of UTF-8 byte sequences around every decision of the decoder (lead byte class x admissible / inadmissible
+    second byte x truncation), used in action and specifier of undecodable request lines (error echo with replacement)"""
+    leads = [0x80, 0xbf, 0xc0, 0xc1, 0xc2, 0xdf, 0xe0, 0xe1, 0xec, 0xed, 0xee, 0xef, 0xf0, 0xf1, 0xf3, 0xf4, 0xf5, 0xff]
+    seconds = [None, 0x7f, 0x80, 0x8f, 0x90, 0x9f, 0xa0, 0xbf, 0xc2]
+    thirds = [None, 0x41, 0x80, 0xbf]
+    fourths = [None, 0x41, 0x80]
+    seen, out = set(), []
+    for a in leads:
+        for b in seconds:
+            for c in thirds:
+                for d in fourths:
+                    q = [a]
+                    for x in (b, c, d):
+                        if x is None:
+                            break
+                        q.append(x)
+                    q = bytes(q)
+                    if q not in seen:
+                        seen.add(q)
+                        out.append(q)
+    return out
+
+
+def echo_cases(rng, n_lines, per_stream=16):
+    seqs = illformed_sequences()
+    if n_lines < len(seqs):
+        seqs = rng.sample(seqs, n_lines)
+    lines = []
+    for q in seqs:
+        form = rng.randrange(4)
+        if form == 0:
+            lines.append(b'a' + q + b'b x' + q + b' {bad')
+        elif form == 1:
+            lines.append(q + b' ' + q + b' [1')
+        elif form == 2:
+            lines.append(b' r' + q + b' m:' + q + b'v ' + q)
+        else:
+            lines.append(b'r\xc3\xa9ad' + q + b' m\xc3\xb6d:value' + q + b' {bad')
+    cases = []
+    for k in range(0, len(lines), per_stream):
+        cases.append({'kind': 'stream', 'chunks': [hx(b'\n'.join(lines[k:k + per_stream]) + b'\n')], 'others': []})
+    return cases
+
+
 def gen_cases(seed, tier):
     rng = random.Random(seed * 1000003 + 7)
     n_stream = {'quick': 2600, 'thorough': 14000, 'search': 30000}[tier]
     n_codec = {'quick': 1400, 'thorough': 6000, 'search': 5000}[tier]
     cases = [stream_case(rng) for _ in range(n_stream)]
     cases.extend(codec_cases(rng, n_codec))
+    cases.extend(echo_cases(rng, {'quick': 480}.get(tier, 10000)))
     for k in range({'quick': 12}.get(tier, 60)):
         cases.append({'kind': 'threads', 'chunks': [hx(b'help\nping a\n'), hx(b'\nping b\nhelp\n')][:1 + k % 2],
                       'pause': [0.0003, 0.001, 0.0001][k % 3], 'n': k})
